@@ -32,8 +32,8 @@ FAMILIES = {
     },
     "tropical": {  # non-negative data: max/min distribute over mul and add
         "data": "pos",
-        "unary": ["sqrt", "abs", "exp", "sigmoid"],
-        "binary": ["add", "mul", "max", "min"],
+        "unary": ["sqrt", "abs", "exp", "sigmoid", "reciprocal"],
+        "binary": ["add", "mul", "max", "min", "truediv"],
         "reduce": ["max", "min", "add", "mul"],
     },
     "log": {
